@@ -1,10 +1,15 @@
 import Dbus.Proofs.Endian
+import Dbus.Proofs.Build
+import Dbus.Props.C12
 /-
   C02 — built messages serialise to valid wire format and round-trip exactly.
 
-  A construction program (any sequence of API calls) denotes an abstract message `m`; the
-  K-tie shows that the library's incremental writer produces `encodeMsg m` byte for byte. The
-  theorems below are about `encodeMsg m` for *every* well-formed `m`.
+  A construction program (any sequence of API calls) denotes an abstract message `m`
+  (`Model/Build.lean`: `pushTop`, `setHdr`, `applyBuild`); the K-tie shows that the library's
+  incremental writer produces `encodeMsg m` byte for byte. The first group of theorems is about
+  `encodeMsg m` for *every* well-formed `m`; the second (`build_keeps_valid`,
+  `built_message_roundtrips`) proves that construction steps, under the API's preconditions, keep
+  the message well-formed - so that the first group applies to whatever was built.
 -/
 namespace Dbus.Props.C02
 open Dbus Dbus.Spec Dbus.Model Dbus.Proofs.Message
@@ -47,5 +52,112 @@ theorem copy_differs_only_in_serial (m : Msg) :
     ({ m with serial := 0 } : Msg).fields = m.fields ∧ ({ m with serial := 0 } : Msg).body = m.body ∧
     ({ m with serial := 0 } : Msg).mtype = m.mtype ∧ ({ m with serial := 0 } : Msg).flags = m.flags :=
   ⟨rfl, rfl, rfl, rfl⟩
+
+end Dbus.Props.C02
+
+namespace Dbus.Props.C02
+open Dbus Dbus.Spec Dbus.Model Dbus.Proofs.Message Dbus.Props.C12
+
+/-- the SIGNATURE field the library writes for a body of types `tys` -/
+def sigField (tys : List Ty) : Field := { code := FIELD_SIGNATURE, ty := .basic .sig, val := .str .sig (printList tys) }
+
+/-- what appending the value `v` to the body of `m` needs: the value is well-formed where it will stand, the lengthened
+    signature is a signature (its types are types, it fits in 255 bytes, the depths are within the limits), and the
+    message still fits the size limits -/
+structure AppendOK (mx : Nat) (m : Msg) (v : Val) : Prop where
+  value : WFVal m.endian 0 (encodeBody m).length v (valTy v)
+  sig_types : WFList (m.bodyTypes ++ [valTy v])
+  sig_ok : SigOK (printList (m.bodyTypes ++ [valTy v]))
+  body_fits : (encodeList m.endian 0 (m.body ++ [v])).length ≤ mx ∧ (encodeList m.endian 0 (m.body ++ [v])).length < 2 ^ 32
+  header_fits : fieldsLen m.endian (setFieldList m.fields (sigField (m.bodyTypes ++ [valTy v]))) ≤ MAX_ARRAY_LENGTH ∧
+    fieldsLen m.endian (setFieldList m.fields (sigField (m.bodyTypes ++ [valTy v]))) ≤ mx ∧
+    align8 (16 + fieldsLen m.endian (setFieldList m.fields (sigField (m.bodyTypes ++ [valTy v])))) +
+      (encodeList m.endian 0 (m.body ++ [v])).length ≤ mx
+
+
+theorem sigField_ok (tys : List Ty) : FieldOK (sigField tys) :=
+  ⟨by show (8 : Nat) ≠ 0; decide, fun _ => ⟨.sig, rfl, rfl, rfl⟩⟩
+
+theorem sigField_wf (e : Endian) (tys : List Ty) (h : SigOK (printList tys)) : FieldWF e (sigField tys) := by
+  have hl := Dbus.Proofs.Wire.sigOK_length h
+  unfold FieldWF fieldVal sigField
+  simp only [WFVal, WFFields, Ty.WF, Ty.DepthLax]
+  refine ⟨by simp, by unfold MAX_VALUE_DEPTH; omega, ⟨trivial, rfl, by decide, by simp⟩, ?_, trivial⟩
+  refine ⟨trivial, ⟨by decide, by decide, by decide⟩, by decide, by unfold MAX_VALUE_DEPTH; omega, trivial, rfl, by omega,
+    (fun h => by cases h), (fun h => by cases h), fun _ => h⟩
+
+/-- **Appending a value keeps a valid message valid**: the body grows by the value, the signature by its type,
+    the SIGNATURE field is rewritten to match - and the result is a well-formed message again. -/
+theorem pushTop_keeps_valid (mx fds : Nat) (m : Msg) (v : Val) (h : WFMsg mx fds m) (ha : AppendOK mx m v) :
+    WFMsg mx fds (pushTop m v) := by
+  have hold := (header_wf_fields_of _ _ _ _ _ _ _ h.header_wf).2
+  have hwf : ∀ g ∈ setFieldList m.fields (sigField (m.bodyTypes ++ [valTy v])), FieldWF m.endian g := by
+    intro g hg
+    rcases mem_setFieldList _ _ _ hg with hg | rfl
+    · exact hold g hg
+    · exact sigField_wf _ _ ha.sig_ok
+  have hbody : WFFields m.endian 0 0 (m.body ++ [v]) (m.bodyTypes ++ [valTy v]) :=
+    wfFields_append m.endian m.body m.bodyTypes v (valTy v) 0 0 h.body_wf (by simpa [encodeBody] using ha.value)
+  refine { mtype_ne := h.mtype_ne, version_eq := h.version_eq, serial_ne := h.serial_ne, header_wf := ?_,
+           fields_ok := checkFields_set _ _ h.fields_ok (by show (8 : Nat) ≤ 10; decide) (sigField_ok _), mandatory := mandatoryOK_set _ _ _ h.mandatory,
+           body_types := ?_, body_wf := hbody, falen_le := ha.header_fits.2.1, blen_le := ha.body_fits.1,
+           total_le := ha.header_fits.2.2, fds_ok := ?_ }
+  · have hw := h.header_wf
+    show WFFields m.endian 0 0 (headerValues m.endian m.mtype m.flags m.version (encodeList m.endian 0 (m.body ++ [v])).length m.serial
+      (setFieldList m.fields (sigField (m.bodyTypes ++ [valTy v])))) headerTypes
+    simp only [headerValues, headerTypes, WFFields] at hw ⊢
+    refine ⟨hw.1, hw.2.1, hw.2.2.1, hw.2.2.2.1, ?_, ?_, ?_, trivial⟩
+    · simp only [WFVal]
+      exact ⟨trivial, rfl, by have := ha.body_fits.2; show _ < 256 ^ 4; omega, by intro h; cases h⟩
+    · have := hw.2.2.2.2.2.1
+      simp only [WFVal] at this ⊢
+      exact this
+    · exact (wfVal_fieldArray_iff m.endian _ _).2 ⟨ha.header_fits.1, hwf⟩
+  · show bodyTypesOf (setFieldList m.fields (sigField (m.bodyTypes ++ [valTy v]))) = some (m.bodyTypes ++ [valTy v])
+    unfold bodyTypesOf
+    have := set_reads_back m.fields (sigField (m.bodyTypes ++ [valTy v]))
+    rw [show FIELD_SIGNATURE = (sigField (m.bodyTypes ++ [valTy v])).code from rfl, this]
+    show parseSignature (printList (m.bodyTypes ++ [valTy v])) = _
+    unfold parseSignature
+    exact Dbus.Proofs.parseSeq_complete _ _ ha.sig_types (Nat.le_refl _)
+  · have := h.fds_ok
+    show unixFdsOf (setFieldList m.fields (sigField (m.bodyTypes ++ [valTy v]))) ≤ fds
+    unfold unixFdsOf at this ⊢
+    rw [set_frame _ _ _ (by show (9 : Nat) ≠ 8; decide)]
+    exact this
+
+
+/-- the API's preconditions for one construction step on the message as it then is -/
+def BuildOK (mx : Nat) (m : Msg) : BuildOp → Prop
+  | .header op => EditOK mx m op
+  | .append v => AppendOK mx m v
+
+def BuildsOK (mx : Nat) : Msg → List BuildOp → Prop
+  | _, [] => True
+  | m, op :: ops => BuildOK mx m op ∧ BuildsOK mx (applyBuild m op) ops
+
+theorem build_step_keeps_valid (mx fds : Nat) (m : Msg) (op : BuildOp) (h : WFMsg mx fds m) (hop : BuildOK mx m op) :
+    WFMsg mx fds (applyBuild m op) := by
+  cases op with
+  | header e => exact edit_keeps_valid mx fds m e h hop
+  | append v => exact pushTop_keeps_valid mx fds m v h hop
+
+/-- **Whatever the construction API is used for, in whatever order - header fields set, replaced and cleared, values
+    appended - the message stays a valid message** -/
+theorem build_keeps_valid (mx fds : Nat) : ∀ (ops : List BuildOp) (m : Msg), WFMsg mx fds m → BuildsOK mx m ops →
+    WFMsg mx fds (ops.foldl applyBuild m)
+  | [], _, h, _ => h
+  | op :: ops, m, h, hops => build_keeps_valid mx fds ops _ (build_step_keeps_valid mx fds m op h hops.1) hops.2
+
+/-- **… and serialises to bytes that parse back to exactly the built message** (whose re-serialisation is then
+    byte-identical by `remarshal_identical`) -/
+theorem built_message_roundtrips (mx fds : Nat) (ops : List BuildOp) (m : Msg) (h : WFMsg mx fds m) (hops : BuildsOK mx m ops) :
+    loadOne true mx fds (encodeMsg (ops.foldl applyBuild m)) =
+      .ok (ops.foldl applyBuild m) (encodeMsg (ops.foldl applyBuild m)).length :=
+  marshal_roundtrip mx fds _ (build_keeps_valid mx fds ops m h hops)
+
+/-- the serial may be given at any time (the library gives it when the message is sent): it commutes with appending -/
+theorem serial_commutes_with_append (m : Msg) (v : Val) (n : Nat) :
+    applyEdit (pushTop m v) (.setSerial n) = pushTop (applyEdit m (.setSerial n)) v := rfl
 
 end Dbus.Props.C02
